@@ -159,14 +159,9 @@ int a_que_setz(a_que *ctx, a_size siz, void (*dtor)(void *))
         if (!siz) { siz = 1; }
         if (siz > ctx->siz_)
         {
-            a_size cur = ctx->cur_;
-            a_list **ptr = ctx->ptr_;
-            for (; cur; ++ptr, --cur)
-            {
-                void *const p = a_alloc(*ptr, sizeof(a_list) + siz);
-                if (A_UNLIKELY(!p)) { return A_OMEMORY; }
-                *ptr = (a_list *)p;
-            }
+            /* pooled nodes are too small now: release them, new ones are allocated on demand.
+               Growing them here could fail after the elements were already dropped. */
+            while (ctx->cur_) { a_alloc(ctx->ptr_[--ctx->cur_], 0); }
         }
         ctx->siz_ = siz;
     }
